@@ -15,7 +15,7 @@ from __future__ import annotations
 from . import values as V
 
 PLAIN_KEYS = ["a", "b", "c", "d"]
-EXOTIC_KEYS = ["~", "!", "a.b", "a=b", "%", "'", '"', "\\", "p1", "..", "a b".replace(" ", "_"), "#x", "[0]", "{k}", "-", "0"]
+EXOTIC_KEYS = ["x_metador_y", "a.metador_b", "nometador_", "~", "!", "a.b", "a=b", "%", "'", '"', "\\", "p1", "..", "a b".replace(" ", "_"), "#x", "[0]", "{k}", "-", "0"]
 ATTR_KEYS = ["k", "m", "n", "a", "a.b", "~", "x=y"]
 
 DATA_OPS = ("set_ds", "create_group", "require_group", "del", "set_attr", "del_attr", "copy", "move")
